@@ -82,6 +82,12 @@ def sampleconc(n, t):
             'INVARIANTS OnlyEmitted InOrderNoneTwice FreshIsInSlot NothingAfterComplete\nCHECK_DEADLOCK FALSE\n' % (n, t))
 
 
+def timedsources(kind, n=2):
+    return ('TimedSources', 'timedsources_%s%s' % (kind, '_%d' % n if kind == 'delay' else ''),
+            'SPECIFICATION Spec\nCONSTANTS Kind = "%s"\n D = 100\n UGrid = {55, 175, 250}\n Horizon = 450\n Gaps = {40, 90, 260}\n MaxEvents = %d\n EmitThenSleep = FALSE\n NoPoll = FALSE\n'
+            'INVARIANTS IntervalExact IntervalKeepsGoing NothingAfterUnsub TimerExact TimerFires DelayExact DelayOrder DelayAll ExitWithinOnePeriod\nPROPERTY WorkerExits\nCHECK_DEADLOCK FALSE\n' % (kind, n))
+
+
 def refcountconc(leavers, stayers):
     return ('RefCountConc', 'refcountconc_%dl_%ds' % (leavers, stayers),
             'SPECIFICATION Spec\nCONSTANTS Leavers = {%s}\n Stayers = {%s}\n Recheck = TRUE\nINVARIANTS AtMostOneSource PresentMeansConnected EmptyMeansReleased\nCHECK_DEADLOCK FALSE\n'
@@ -115,8 +121,9 @@ CONC = {
     'C08': (['C08'], [schedqueue(2, 2, '{11}', '2x2_abort_inside')], [schedqueue(2, 2, '{11}', '2x2_abort_inside'), schedqueue(2, 3, '{}', '2x3'), schedqueue(3, 1, '{11}', '3x1')]),
     'C09': (['C09'], [schedqueue(1, 3, '{13}', 'handoff_1x3_abort_in_last'), observeon(3, 'c', False), observeon(2, 'e', True), subscribeon(3, True, False), subscribeon(2, True, True)],
             [schedqueue(1, 3, '{13}', 'handoff_1x3_abort_in_last'), schedqueue(2, 2, '{}', 'handoff_2x2'), observeon(4, 'c', True), observeon(4, 'e', True), observeon(3, 'none', True), subscribeon(4, True, True), subscribeon(3, False, True)]),
-    'C15': (['C15'], [schedqueue(1, 2, '{12}', 'lifecycle'), timedops(3), observeon(2, 'none', True), subscribeon(2, False, True)], [schedqueue(2, 2, '{11}', 'lifecycle2'), timedops(4), observeon(3, 'e', True), observeon(3, 'none', True)]),
-    'C16': (['C16'], [timedops(3), debounce(3), sampleconc(3, 3)], [timedops(4), debounce(4), sampleconc(5, 5)]),
+    'C15': (['C15'], [schedqueue(1, 2, '{12}', 'lifecycle'), timedops(3), observeon(2, 'none', True), subscribeon(2, False, True), timedsources('interval')], [schedqueue(2, 2, '{11}', 'lifecycle2'), timedops(4), observeon(3, 'e', True), observeon(3, 'none', True)]),
+    'C16': (['C16'], [timedops(3), debounce(3), sampleconc(3, 3), timedsources('interval'), timedsources('timer'), timedsources('delay', 2)],
+            [timedops(4), debounce(4), sampleconc(5, 5), timedsources('interval'), timedsources('timer'), timedsources('delay', 4)]),
     'C18': (['C18'], [tovec(2, False), tovec(2, True)], [tovec(4, False), tovec(4, True)]),
     'C13': (['C13'], [refcountconc(2, 1)], [refcountconc(3, 1), refcountconc(2, 2)]),
     'C04': (['C04'], [], []),
